@@ -7,8 +7,8 @@ U(k, n) == SmallUint(k, n)
 
 \* boundary alphabet of scalars (descriptors; see Writer!Val)
 ScalarsFull == {
-    [k |-> "bool", v |-> TRUE], [k |-> "bool", v |-> FALSE],
-    [k |-> "byte", v |-> 255],
+    [k |-> "bool", b |-> TRUE], [k |-> "bool", b |-> FALSE],
+    [k |-> "byte", n |-> 255],
     I("int16", -32768), I("int16", 126), I("int32", -1), I("int32", 127), I("int32", 32767), I("int32", 32768),
     VInt("int32", TRUE, <<0,0,0,0,128,0,0,0>>),                       \* MinInt32
     VInt("int64", FALSE, <<0,0,0,0,128,0,0,0>>),                      \* 2^31 -> zig-zag 2^32: 9-byte class
@@ -26,11 +26,11 @@ ScalarsFull == {
     [k |-> "string", fill |-> 0], [k |-> "string", fill |-> 2] }
 
 ScalarsSmall == {
-    [k |-> "bool", v |-> TRUE], I("int32", -1), I("int32", 127),
+    [k |-> "bool", b |-> TRUE], I("int32", -1), I("int32", 127),
     VInt("int64", TRUE, <<128,0,0,0,0,0,0,0>>), U("uint16", 253),
     VF64(<<128,0,0,0,0,0,0,0>>), [k |-> "string", fill |-> 2], [k |-> "bytes", fill |-> 0] }
 
-ScalarsTiny == { [k |-> "bool", v |-> TRUE], I("int32", 127), [k |-> "string", fill |-> 2] }
+ScalarsTiny == { [k |-> "bool", b |-> TRUE], I("int32", 127), [k |-> "string", fill |-> 2] }
 
 \* raw sources for Any / Copy / Merge: previously built values
 SrcMsgA == VMsg(<< <<1, I("int32", 5)>>, <<300, VString(Fill(2))>> >>)
@@ -48,10 +48,10 @@ TagsTiny == {1, 256}
 \* boundary payloads: a bytes field of n >= 253 bytes occupies n + 4 bytes
 PayloadDescs == { [k |-> "bytes", fill |-> n] : n \in {252, 253, 65530, 65531, 65532, 65535, 65536} }
                  \cup { [k |-> "string", fill |-> n] : n \in {252, 253, 65530, 65531, 65536} }
-                 \cup { [k |-> "bool", v |-> TRUE] }
+                 \cup { [k |-> "bool", b |-> TRUE] }
 
 MacrosBoundary ==
-    { [op |-> "elem_repeat", val |-> [k |-> "bool", v |-> TRUE], n |-> n] : n \in {47, 48, 49, 255, 256} }
+    { [op |-> "elem_repeat", val |-> [k |-> "bool", b |-> TRUE], n |-> n] : n \in {47, 48, 49, 255, 256} }
     \cup { [op |-> "elem_repeat", val |-> [k |-> "bytes", fill |-> 253], n |-> n] : n \in {254, 255, 256} }
     \cup { [op |-> "field_repeat", val |-> I("int32", 127), tag |-> t, n |-> n] : t \in {255, 300}, n \in {47, 48, 49, 50} }
     \cup { [op |-> "nest", val |-> I("int32", -1), n |-> n] : n \in {6, 7, 13, 14, 15, 16} }
@@ -60,9 +60,9 @@ NoMacros == {}
 
 \* quick-tier subsets
 PayloadDescsQ == { [k |-> "bytes", fill |-> n] : n \in {252, 253, 65531, 65532} }
-                 \cup { [k |-> "string", fill |-> n] : n \in {252, 253} } \cup { [k |-> "bool", v |-> TRUE] }
+                 \cup { [k |-> "string", fill |-> n] : n \in {252, 253} } \cup { [k |-> "bool", b |-> TRUE] }
 MacrosBoundaryQ ==
-    { [op |-> "elem_repeat", val |-> [k |-> "bool", v |-> TRUE], n |-> n] : n \in {48, 49, 255, 256} }
+    { [op |-> "elem_repeat", val |-> [k |-> "bool", b |-> TRUE], n |-> n] : n \in {48, 49, 255, 256} }
     \cup { [op |-> "elem_repeat", val |-> [k |-> "bytes", fill |-> 253], n |-> n] : n \in {255, 256} }
     \cup { [op |-> "field_repeat", val |-> I("int32", 127), tag |-> t, n |-> n] : t \in {255, 300}, n \in {48, 49} }
     \cup { [op |-> "nest", val |-> I("int32", -1), n |-> n] : n \in {14, 15} }
